@@ -72,6 +72,8 @@ PROFILES = {
                           p_lazyfail=0.05),
     "faultyctx": dict(BASE, ctx_types=("async",), p_ctx=0.6, faulty=("-", "pause", "resume"), p_share=0.1, p_catch=0.3),
     "faultysync": dict(BASE, ctx_types=("async",), p_ctx=0.6, faulty=("-", "pause", "resume"), p_sync=0.25, p_catch=0.3),
+    "overflow": dict(BASE, ntasks=(3, 8), nleaf=(1, 3), p_task=0.6, p_item=0.25, p_sync=0.15, maxstack=(2, 5), ncalls=2,
+                     p_catch=0.3),
     "everything": dict(BASE, ntasks=(2, 8), nkinds=(1, 3), bases=(0, 1), p_share=0.1, p_reyield=0.05,
                        flush_modes=("ok", "ok", "itemerr", "skip", "raise"), p_raise=0.08, p_errleaf=0.04, p_bad=0.03,
                        p_catch=0.35, p_sync=0.15, ctx_types=("async", "override"), p_ctx=0.35, nvars=1, p_read=0.3),
@@ -214,7 +216,10 @@ class Gen(object):
         tasks = [self.tasks[i] for i in range(1, self.next)]
         kinds = [kind(r.choice(p["bases"]), r.choice(p["flush_modes"])) for _ in range(self.nk)]
         calls = [{"root": u, "conv": r.choice(p["convs"])} for u in roots]
-        return program(tasks, kinds, self.ctxs, p["nvars"], calls)
+        prog = program(tasks, kinds, self.ctxs, p["nvars"], calls)
+        if p.get("maxstack"):
+            prog["maxstack"] = r.randint(*p["maxstack"])
+        return prog
 
 
 def _leaves(s):
